@@ -77,6 +77,7 @@ struct Plan
     int spurious_pm = 0; // per mille
     int time_adv_pct = 20;
     int clock_yield_pct = 0;
+    int io_yield_pct = 0;
     int max_decisions = 20000;
     int stall_tid = -1, stall_from = 0, stall_len = 0;
     std::vector<uint8_t> choices;
